@@ -17,6 +17,17 @@ CHECKS = {
         ref="6/C14"),
 }
 
+CHECKS["C08"] = dict(
+    technique="TLA+ run-length definitions (Defs_Lines, design-checked in MC_Lines) + TLC-enumerated matrices realised via CraftSeries + TLC trace validation (Val_C08)",
+    text="TLC model-checks that the scan formulation equals the declarative maximal-run definition (MC_Lines), enumerates every "
+         "symmetric unit-diagonal 0/1 matrix up to the cfg size with missing masks (Gen_C08); each is realised through the public "
+         "RecurrencePlot constructor in matrix and sequential mode and TLC decides the recorded histograms, conservation laws, "
+         "sequential=matrix, and DET/L/ENTR/LAM/TT/MRT/max lengths for l_min 1..3 against the definitions; seeded dyadic random "
+         "series (three metrics, local rate => non-symmetric) are validated the same way.",
+    note="Entropies through a generated integer ln table (spec/Tables.tla, trusted); tolerance 2e-5 (3e-3 above 6x6). "
+         "Sequential mode checked on dyadic data only (float32 threshold is exact there).",
+    ref="6/C08")
+
 NOT_APPLICABLE = {
     "C20": "memory safety of compiled kernels is a property of concrete addresses, not of abstract state a TLA+ "
            "specification maintains; nothing binds a PlusCal transcription of index arithmetic to the compiled code "
